@@ -276,6 +276,9 @@ pub fn par_map<T: Sync, R: Send>(cases: &[T], threads: usize, f: impl Fn(usize, 
 }
 
 pub fn ncpu() -> usize {
+    if let Some(n) = std::env::var("ZKV_THREADS").ok().and_then(|s| s.parse::<usize>().ok()) {
+        return n.max(1);
+    }
     std::thread::available_parallelism().map(|n| n.get()).unwrap_or(4).min(16)
 }
 
